@@ -930,6 +930,9 @@ class Run:
             for k, val in lo.paid_interest.items():
                 exp[k] -= val
         for s in set(exp) | set(snap.bal):
+            if snap.loans_stale:
+                self.stats["ledger_unchecked_stale_loan_listing"] += 1
+                break      # the interest paid so far is unknown while get_loans() raises
             if snap.total(s) != exp[s]:
                 self.v("C01", "ledger_mismatch",
                        f"{s}: total {snap.total(s)} but initial+fills-fees-interest = {exp[s]} at {where}")
